@@ -1,5 +1,6 @@
 #![allow(irrefutable_let_patterns, dead_code)]
 mod conditions;
+mod getflags;
 mod ints;
 mod relations;
 mod sx;
@@ -32,6 +33,7 @@ fn run(domain: &str, args: &util::Args) {
         "conditions" => conditions::record(args),
         "relations" => relations::record(args),
         "timelocks" => timelocks::record(args),
+        "getflags" => getflags::record(args),
         d => {
             eprintln!("unknown domain {d}");
             std::process::exit(2);
